@@ -46,6 +46,7 @@ def run(P, R, tier, cfg):
     _operator_tables(P, R)
     _precedence(P, R)
     _scanners(P, R)
+    _identifier_class(P, R)
     _salience(P, R)
     from rules import connectives
     connectives.check_constructors(P, R, "f")
@@ -243,6 +244,38 @@ def _precedence(P, R):
         R.violate("c", "paren-strip-unguarded", "outer parentheses are stripped without checking that they match each other: `(a) && (b)` loses its structure", f)
 
 
+def _identifier_class(P, R):
+    """h. Lexical agreement: the names the condition patterns accept as field references are `[a-zA-Z_][a-zA-Z0-9_]*` (digits
+    after the first character); parse_value must classify the same words as references, or `total = base2;` stores the text
+    "base2" instead of the value of base2. Decided on is_identifier's continuation predicate: it has to admit digits."""
+    f = P.fns.get(GP + "::is_identifier")
+    if f is None:
+        R.undecide("h", "is_identifier", "GRLParser::is_identifier not found")
+        return
+    f = P.inlined(f)
+    preds = []
+    for c in f.calls():
+        if c.bb in f.normal_blocks() and c.name.endswith(("Iterator::all", "Iterator>::all")) and len(c.args) == 2 and "::chars(" in fmt_sym(f.sym_operand(c.args[0]), maxdepth=8):
+            for x in walk(f.sym_operand(c.args[1])):
+                if x[0] == "agg" and str(x[1]).startswith("closure:") and x[1][len("closure:"):] in P.fns:
+                    preds.append(P.fns[x[1][len("closure:"):]])
+                if x[0] == "const" and x[1] == "fn" and isinstance(x[2], str) and x[2] in P.fns:
+                    preds.append(P.fns[x[2]])
+    if not preds:
+        R.undecide("h", "is_identifier", "no `chars().all(<predicate>)` over the candidate word found in is_identifier", f)
+        return
+    for pf in preds:
+        names = [c.name.rsplit("::", 1)[-1] for g in [pf] + list(P.closures_of(pf)) for c in g.calls() if c.bb in g.normal_blocks()]
+        digits = [n_ for n_ in names if n_ in ("is_alphanumeric", "is_ascii_alphanumeric", "is_numeric", "is_ascii_digit", "is_digit")]
+        letters = [n_ for n_ in names if n_ in ("is_alphabetic", "is_ascii_alphabetic", "is_lowercase", "is_uppercase", "is_ascii_lowercase", "is_ascii_uppercase")]
+        if digits:
+            R.hold("h", "is_identifier admits digits after the first character (%s), like the field names of the condition patterns" % digits[0], fn=pf)
+        elif letters:
+            R.violate("h", "identifier-rest-excludes-digits", "is_identifier tests the characters after the first with %s only: a field called `base2` is not an identifier for parse_value, so `x = base2;` stores the string \"base2\" and not the value of base2 (the condition patterns accept `[a-zA-Z_][a-zA-Z0-9_]*`)" % letters[0], pf)
+        else:
+            R.undecide("h", "is_identifier", "the continuation predicate of is_identifier uses no character-class test this rule reads", pf)
+
+
 # ------------------------------------------------------------------------------------------------ d
 def _scanners(P, R):
     roots = [GP + "::parse_rule", GP + "::parse_rules", GP + "::parse_with_modules"]
@@ -259,6 +292,7 @@ def _scanners(P, R):
             if "::chars(" not in it and "::char_indices(" not in it:
                 continue
             delim_arms, quote_arm = {}, False
+            shared_toggle = None
             for b in lp["body"]:
                 t = f.term(b)
                 if t[2] != "switch":
@@ -266,14 +300,23 @@ def _scanners(P, R):
                 ty = A.place_type(f, t[3][1]) if t[3][0] in "cm" else None
                 if ty != "char":
                     continue
+                qt = {}
                 for v, tgt in t[4]:
                     if v in DELIMS:
                         delim_arms[v] = (b, tgt)
                     if v == QUOTE or v == 39:
                         quote_arm = True
+                        qt[v] = tgt
+                if len(qt) == 2 and len(set(qt.values())) == 1:
+                    shared_toggle = b
             if not delim_arms:
                 continue
             n += 1
+            if shared_toggle is not None:
+                # `'"' | '\'' => in_string = !in_string`: one flag for two kinds of quote cannot tell which one opened the literal,
+                # so an apostrophe inside "O'Brien" closes it and the rest of the clause is read as string content
+                R.violate("d", "scanner-mixed-quote-toggle:%s" % name.split("::")[-1],
+                          "%s flips one in-string flag on both `\"` and `'`: a quote character of the other kind inside a literal ends it early, and every delimiter after it is ignored or every one inside it is acted on" % name.split("::")[-1], f, f.term(shared_toggle)[0])
             splitting = [DELIMS[v] for v in delim_arms if DELIMS[v] in ",;&|"]
             key = "%s:chars-loop" % name.split("::")[-1]
             if quote_arm and _arms_guarded_by_flag(f, lp, delim_arms):
